@@ -51,9 +51,14 @@ Two DIFFERENT changes (call them {pid}-{k1} and {pid}-{k2}) to the library's non
    or timing, a fault at one particular point, a multi-step sequence of operations (state carried from an earlier call),
    one unusual input or narrow input region, one particular configuration/time zone/path, or two cooperating edits in
    different places that each look fine alone. A change that ordinary use or a handful of random inputs would expose
-   at once is NOT wanted. Assume the people testing the library already run large numbers of random inputs, random call
-   sequences, many time zones, concurrent callers, cold-start concurrency in fresh processes, debug mode on/off, configured
-   controller time zones, and common network faults (silence, floods, refused/reset/closed connections, fragments):
+   at once is NOT wanted. Assume the people testing the library already run large numbers of random inputs and random call
+   sequences (incl. read-modify-write sequences and arguments that coincide with configured values), every IANA time zone
+   (incl. zones with skipped days and a synthetic zone that changes its clock today), concurrent callers (incl. identical
+   concurrent calls and cold-start concurrency in fresh processes), debug mode on/off, every kind of client configuration
+   (controller time zones, door names, IPv4-mapped / IPv6 addresses, equal port numbers), all stop-signal kinds, common
+   network faults (silence, floods, streams across the deadline, refused / reset / closed / trickling / slowly connecting
+   peers, ICMP errors), hash-colliding and carry-aliased inputs for caches, constants harvested from the source code,
+   results that are modified by the caller and re-read later, and slice arguments with spare capacity:
    look for what such testing still would NOT reach.
 
 Changes of earlier rounds - do NOT repeat these or close variants of them; find a different mechanism, a different
